@@ -38,6 +38,7 @@ class Env:
         self.funcs: dict[str, Any] = {}
         self.late_renames = False
         self.exercise_intermediates = True
+        self.bases: dict[int, Any] = {}
 
     def err(self, tag: str) -> UserErr:
         if tag not in self.errs:
@@ -338,6 +339,7 @@ def build_graph(gspec: dict, gi: int, graphs: list[Any], env: Env, *, async_bodi
         g = g.select(*gspec["selected"])
     if gspec.get("entrypoints") is not None:
         _exercise_graph(g, env, async_bodies)
+        env.bases[gi] = g                      # the object the entry-point graph was derived from (siblings can be derived from it)
         g = g.with_entrypoint(*gspec["entrypoints"])
     return g
 
